@@ -220,7 +220,9 @@ func ParseTemplate(str string) ([]string, []string, *ParsingError) {
 			vars = append(vars, var_)
 
 		default:
-			currentStr += string(b)
+			// b is one byte of the UTF-8 text, not a code point: string(b) would re-encode the
+			// bytes of a multi-byte character one by one
+			currentStr += string([]byte{b})
 		}
 	}
 
